@@ -54,6 +54,9 @@ def handle : Handler
   | "alias_neg", args => run3 (fun w u _ => mpz_neg w u) args
   | "alias_abs", args => run3 (fun w u _ => mpz_abs w u) args
   | "alias_set", args => run3 (fun w u _ => mpz_set w u) args
+  | "alias_sqrtrem", [.num a, .num b, .num c, .num _, .num v0, .num v1, .num v2, .num v3] => do
+    let a ← idx a; let b ← idx b; let c ← idx c
+    if a = b then none else answer (sqrtrem a b c (ofInts [v0, v1, v2, v3]))
   | "alias_mul_2exp", args => runB mul_2exp args
   | "alias_tdiv_q_2exp", args => runB tdiv_q_2exp args
   | _, _ => none
